@@ -163,3 +163,32 @@ def select(mode: str, expr: str, tasks: list[dict]):
         return []
     match = mark_matches if mode == "m" else kw_matches
     return [i for i, task in enumerate(tasks) if value(t, lambda x, task=task: match(task, x))]
+
+
+# ---------------------------------------------------------------------------------------------
+# `after="<expr>"` over a whole project: every task that carries an `after` string must come after exactly the tasks
+# whose keyword matcher satisfies the formula, minus itself — independently of the other tasks' strings and of the order in
+# which tasks are processed.
+# ---------------------------------------------------------------------------------------------
+
+def after_preds(tasks: list[dict]):
+    """tasks[i]["after"] is a string or None. Returns ("parse-error", None) | ("cycle", preds) | ("ok", preds) with
+    preds[i] = sorted indices of the tasks that task i has to follow."""
+    preds = []
+    for i, t in enumerate(tasks):
+        e = t.get("after")
+        if e is None:
+            preds.append([])
+            continue
+        sel = select("after", e, tasks)
+        if sel == "parse-error":
+            return "parse-error", None
+        preds.append([j for j in sel if j != i])
+    # cycle detection by repeated removal of tasks without unfinished predecessors
+    left = set(range(len(tasks)))
+    while True:
+        free = [i for i in left if not (set(preds[i]) & left)]
+        if not free:
+            break
+        left.difference_update(free)
+    return ("cycle" if left else "ok"), preds
